@@ -130,6 +130,9 @@ pub struct MapRt {
     pub peak_live_val: [u64; 16],
     pub marks: Vec<(u64, u64)>,
     pub last_imgs: Option<[Img; 3]>,
+    /// a multi-key update happened: in-use counts inside such a call are not observable, so the
+    /// per-class bound (peak at call boundaries + 1) is no longer asserted for this map
+    pub bound_void: bool,
 }
 
 pub struct IterRt {
@@ -213,6 +216,7 @@ impl<'a> World<'a> {
                     peak_live_val: [0; 16],
                     marks: Vec::new(),
                     last_imgs: None,
+                    bound_void: false,
                 })
                 .collect(),
             snaps: BTreeMap::new(),
